@@ -514,7 +514,7 @@ pub fn run(ctx: &Ctx) -> Report {
             let nt = z.transitions.len();
             for (j, t) in z.transitions.iter_mut().enumerate() {
                 if j + 1 < nt && j % 2 == 0 {
-                    t.1 = 128 + (t.0.unsigned_abs() as usize + j) % (want - 128).max(1);
+                    t.1 = 128 + (t.0.unsigned_abs() as usize + j) % want.saturating_sub(128).max(1);
                     if t.1 >= want {
                         t.1 = want - 1;
                     }
